@@ -1301,4 +1301,26 @@ theorem C05_pair_frame_replace_adjacent {f : Forest} {a b : Nat} {A : HTree} (in
   rw [hadj, if_pos rfl]
   exact frame_specRemoveP inv hA hx h1 h3 h4
 
+/-- ⟦partial⟧ The frame of `replace` WITHOUT `Forest.Normal` is proved in the geometry "replacing node already next to the
+    replaced one"; in the other geometries it is proved under `Forest.Normal` (`C05_frame_replace`).  Full statement
+    (goal): the same conclusion from `inv`, `hok` and `h1 … h6` alone.  Missing: the frame of the pair reading
+    `specReplaceP` when the replacing node is cut elsewhere, put in the place of `a` and merged by `mergeNew3`. -/
+theorem C05_pair_frame_replace_partial {f : Forest} {a b q : Nat} {A t : HTree} (inv : f.Inv)
+    (hbound : f.Normal ∨ adjacentTo f a b = true)
+    (hok : (f.replace a b).2 = .ok) (hA : f.get? a = some A) (hb : f.get? b = some t)
+    (hq : f.parent? a = some q)
+    {x : Nat} {cx : HTree.Ctx} (hx : f.ctx? x = some cx)
+    (h1 : cx.parent ≠ q) (h2 : some cx.parent ≠ f.parent? b) (h3 : cx.parent ∉ HTree.handles t)
+    (h4 : x ∉ HTree.handles t) (h5 : cx.parent ∉ HTree.handles A) (h6 : x ∉ HTree.handles A) :
+    ∃ cx', (f.replace a b).1.ctx? x = some cx' ∧ cx'.shape = cx.shape := by
+  rcases hbound with norm | hadj
+  · exact C05_frame_replace inv norm hok hA hb hq hx h1 h2 h3 h4 h5
+  · exact C05_pair_frame_replace_adjacent inv hok hadj hA hx (by rw [hq]; exact fun e => h1 (Option.some.inj e)) h5 h6
+
+/-- Non-vacuity of the second alternative on a forest with adjacent text nodes: in `frameWitness` the text `y` (8) stands
+    next to `u` (3); `replace(u, y)` is accepted and `h` (13) keeps its place. -/
+example : adjacentTo frameWitness 3 8 = true ∧ (frameWitness.replace 3 8).2 = .ok ∧
+    ((frameWitness.replace 3 8).1.ctx? 13).map HTree.Ctx.shape = some (12, [], .element 3, [14]) ∧
+    (frameWitness.replace 3 8).1.value? 2 = some (.text ['x', 'y']) :=
+  ⟨by decide, by decide, by decide, by decide⟩
 end XotModel.Props
